@@ -88,12 +88,21 @@ def make_names(kind, d):
 class Models:
     """Deterministic pure model functions.  `one(x)` is the pristine twin used by references."""
 
-    def __init__(self, kind, names, exact=True, clock=None, accept_batch=True):
+    def __init__(self, kind, names, exact=True, clock=None, accept_batch=True, out_type="plain", label_keys="int"):
         self.kind, self.names, self.exact, self.clock = kind, list(names), exact, clock
         self.accept_batch = accept_batch
+        self.out_type, self.label_keys = out_type, label_keys
 
     def num(self, n, den=7):
-        return Q(n, den) if self.exact else n / 8.0   # /8: float means of <=8 stay exact-ish
+        if self.exact:
+            return Q(n, den)
+        if self.out_type == "np64":                   # NumPy scalars are legal numeric outputs
+            import numpy as np
+            return np.float64(n / 8.0)
+        return n / 8.0   # /8: float means of <=8 stay exact-ish
+
+    def lab(self, l):
+        return l if self.label_keys == "int" else f"class_{l}"
 
     def one(self, x):
         k = self.kind
@@ -105,10 +114,10 @@ class Models:
         if k == "constant":
             return {"output": self.num(3)}
         if k == "multi":
-            return {l: self.num(h("m", l, c) % 1000 + 1) for l in range(3)}
+            return {self.lab(l): self.num(h("m", l, c) % 1000 + 1) for l in range(3)}
         if k == "grow":       # label set depends on the input: labels appear over time
             m = 1 + h("k", c) % 4
-            return {l: self.num(h("m", l, c) % 1000 + 1) for l in range(m)}
+            return {self.lab(l): self.num(h("m", l, c) % 1000 + 1) for l in range(m)}
         if k == "linear":
             tot = 0
             for j, n in enumerate(self.names):
@@ -141,8 +150,8 @@ class Models:
 class Losses:
     """Deterministic pure loss functions; call-convention agnostic unless strict_positional."""
 
-    def __init__(self, kind, exact=True, clock=None):
-        self.kind, self.exact, self.clock = kind, exact, clock
+    def __init__(self, kind, exact=True, clock=None, out_type="plain"):
+        self.kind, self.exact, self.clock, self.out_type = kind, exact, clock, out_type
         self.max_abs = 0.0
 
     def one(self, y, p):
@@ -175,6 +184,8 @@ class Losses:
             self.clock.tick("loss")
             self.clock.log.append(("loss", vals[0], dict(vals[1])))
         r = self.one(vals[0], vals[1])
+        if self.out_type == "np32-loss" and not self.exact:
+            pass        # (float32 losses would change the arithmetic precision of the references: not used)
         a = abs(float(r))
         if a > self.max_abs:
             self.max_abs = a
@@ -185,8 +196,9 @@ class UniqueStream:
     """Observations whose every feature value is globally unique, so a model input identifies the
     stored observation each value came from.  value = base + 1000*t + j  (exactly representable)."""
 
-    def __init__(self, names, seed=0, exact=False, ykind="int", extras=()):
+    def __init__(self, names, seed=0, exact=False, ykind="int", extras=(), shuffle_keys=False):
         self.names, self.rnd, self.t, self.exact, self.ykind = list(names) + list(extras), random.Random(seed), 0, exact, ykind
+        self.shuffle_keys = shuffle_keys
         self.origin = {}
         # every even-indexed feature carries ONE falsy value (0, 0.0 or False) at some early time: still unique per
         # feature, and legal input ("unusual input" class: zero / boolean feature values)
@@ -204,4 +216,8 @@ class UniqueStream:
             x[n] = v
             self.origin[(repr(n), v)] = t
         y = self.rnd.randrange(-5, 6)
+        if self.shuffle_keys:
+            ks = list(x)
+            self.rnd.shuffle(ks)
+            x = {k: x[k] for k in ks}
         return x, y
